@@ -62,6 +62,7 @@ def lattice():
 SIZES = {"one": (1, 1), "two": (2, 2), "few": (3, 9), "some": (10, 60), "many": (61, 200), "huge": (201, 500)}
 MAGS = {"zero": 0.0, "tiny": 1e-3, "small": 0.03, "medium": 0.3, "large": 1.0}
 MINSTEP = 2e-7     # > 3*MINIMUM_RESOLUTION: a zero-width pinhole window holds its own point only
+MINWIDTH = 1e-7    # a width is zero or >= 10*MINIMUM_RESOLUTION (narrower ones are zero to the code, by design)
 
 
 def make_grid(family, size, rng):
@@ -97,9 +98,10 @@ def make_widths(q, pat, mag, rng):
     if f == 0.0:
         return [0.0] * n, 0.0
     if pat == "scalar":
-        v = f * q[rng.randrange(n)] * rng.choice([0.75, 1.0, 1.25])
+        v = max(f * q[rng.randrange(n)] * rng.choice([0.75, 1.0, 1.25]), MINWIDTH)
         return [v] * n, v
     w = [f * x * rng.choice([0.5, 1.0, 1.5]) for x in q] if rng.random() < 0.5 else [f * x for x in q]
+    w = [max(x, MINWIDTH) for x in w]
     if pat == "mixedzero":
         k = rng.randrange(n)
         w = [0.0 if (i == k or rng.random() < 0.3) else x for i, x in enumerate(w)]
@@ -167,7 +169,7 @@ def concretise(cell, tid, rng):
             k = {"one": 1, "few": rng.choice([2, 3]), "some": rng.choice([4, 5, 6, 7])}[cell["size"]]
             qm = rng.choice([0.02, 0.1, 0.3])
             ax = [-qm + 2 * qm * i / (k - 1.0) for i in range(k)] if k > 1 else [qm]
-            pts = [(x, y) for y in ax for x in ax if (x, y) != (0.0, 0.0)]
+            pts = [(x, y) for y in ax for x in ax if math.hypot(x, y) > 1e-6 * qm]
         else:
             k = {"one": 1, "few": rng.randint(3, 9), "some": rng.randint(10, 40)}[cell["size"]]
             pts = [(rng.choice([-1, 1]) * rng.uniform(0.002, 0.3), rng.choice([-1, 1]) * rng.uniform(0.002, 0.3))
@@ -287,9 +289,9 @@ def select_cells(cells, tier, seed):
     if tier == "thorough":
         out = []
         for c in cells:
-            reps = 3 if c["size"] in ("one", "two", "few") else 2
+            reps = 4 if c["size"] in ("one", "two", "few") else 3
             if c["size"] == "huge":
-                reps = 1
+                reps = 2
             out += [c] * reps
         return out
     # quick: stratified sample - every (kind, via, src) stratum and every size / pattern appears
@@ -411,6 +413,11 @@ def run_jobs(chk, jobs, label, keep=None):
         tot = chk.notes.setdefault("violations_by_key", {})
         for ks, cnt in seen.items():
             tot[ks] = tot.get(ks, 0) + cnt
+    rejected = set()
+    for batch, v in zip(batches, results):
+        rejected |= set(batch[line - 1]["tid"] for _, line, _, _ in v["rejects"])
+    for e in events:
+        e["_accepted"] = e["tid"] not in rejected
     for j in jobs:
         c = j["cell"]
         n = len(j.get("q") or j.get("qx") or [])
@@ -418,6 +425,78 @@ def run_jobs(chk, jobs, label, keep=None):
         chk.case(sig, shape_of(j) not in ("zero", "none"),
                  sample={"cell": c, "npoints": n, "shape": shape_of(j)})
     return events
+
+
+def bump(x, rel=1e-9):
+    return repr(float(x) * (1.0 + rel))
+
+
+def corrupted_trace_selftest(chk, events):
+    """DESIGN section 6.1: one recorded field of one accepted event is perturbed; the trace module
+    must reject exactly that event with the expected clause."""
+    import copy
+    cases = []
+
+    def pick(pred):
+        for e in events:
+            if e.get("_accepted") and pred(e):
+                return copy.deepcopy(e)
+        return None
+    e = pick(lambda e: e["ev"] == "Res1D" and e["haverows"] and e["cls"] != "Perfect1D" and len(e["q"]) >= 3
+             and all(len(r) > 2 for r in e["rows"]))
+    if e is not None:
+        a = copy.deepcopy(e)
+        i = len(a["rows"]) // 2
+        k = max(range(len(a["rows"][i])), key=lambda t: float(a["rows"][i][t]))
+        a["rows"][i][k] = bump(a["rows"][i][k], 1e-8)
+        cases.append((a, "rows-sum-to-one"))
+        b = copy.deepcopy(e)
+        b["qcalc"][0] = repr(-abs(float(b["qcalc"][0])))
+        cases.append((b, "qcalc-positive"))
+        c = copy.deepcopy(e)
+        c["probes"][1]["out"][0] = bump(c["probes"][1]["out"][0])
+        cases.append((c, "apply-is-weighted-average"))
+        d = copy.deepcopy(e)
+        i = len(d["rows"]) // 2
+        d["rows"][i][0] = repr(-1e-6)
+        cases.append((d, "weights-nonnegative"))
+    e = pick(lambda e: e["ev"] == "Res1D" and e["cls"] == "Slit1D" and not e["supplied"] and len(e["q"]) >= 3
+             and any(float(x) > 0 for x in e["W"]))
+    if e is not None:
+        m = max(float(x) for x in e["qcalc"])
+        e["qcalc"] = [x for x in e["qcalc"] if float(x) < 0.5 * m] or e["qcalc"][:1]
+        e["haverows"] = False
+        e["rows"], e["off"], e["probes"] = [], [], []
+        cases.append((e, "covers-high"))
+    e = pick(lambda e: e["ev"] == "Direct" and e["calls"] and e["rescls"] in ("Pinhole1D", "Slit1D"))
+    if e is not None:
+        e["calls"][0]["out"][0] = bump(e["calls"][0]["out"][0])
+        cases.append((e, "linear-in-scale-and-background"))
+    e = pick(lambda e: e["ev"] == "Res2D" and e["haswidth"])
+    if e is not None:
+        e["weights"][0] = repr(-float(e["weights"][0]) - 1e-3)
+        cases.append((e, "weights-nonnegative"))
+    e = pick(lambda e: e["ev"] == "Res1D" and e["cls"] == "Perfect1D")
+    if e is not None:
+        e["probes"][1]["out"][0] = bump(e["probes"][1]["out"][0], 1e-15)
+        cases.append((e, "zero-width-identity"))
+    if not cases:
+        raise vlib.Machinery("corrupted-trace self test: no accepted event to perturb")
+    evs = []
+    for k, (e, _) in enumerate(cases):
+        e = {kk: vv for kk, vv in e.items() if kk != "_accepted"}
+        e["tid"] = 900000 + k
+        evs.append(e)
+    v = vlib.validate_trace("ResolutionTrace", evs, timeout=1200, heap="3g")
+    got = {}
+    for tid, line, clause, detail in v["rejects"]:
+        got.setdefault(tid, set()).add(clause)
+    for k, (e, want) in enumerate(cases):
+        if want not in got.get(900000 + k, set()):
+            raise vlib.Machinery("corrupted-trace self test: %s of a %s event was not rejected with '%s' (got %s)"
+                                 % (want, e["ev"], want, sorted(got.get(900000 + k, []))))
+    chk.notes["corrupted_trace_selftest"] = "%d perturbed events, each rejected with the expected clause: %s" % (
+        len(cases), ", ".join(sorted(set(w for _, w in cases))))
 
 
 def run(chk, args):
@@ -440,8 +519,12 @@ def run(chk, args):
     chk.notes["objects"] = len(jobs)
     # bounded memory: a few thousand objects per round
     R = 1500
+    first = None
     for i in range(0, len(jobs), R):
-        run_jobs(chk, jobs[i:i + R], "lattice")
+        evs = run_jobs(chk, jobs[i:i + R], "lattice")
+        if first is None:
+            first = evs
+    corrupted_trace_selftest(chk, first)
     chk.cov["rule"] = (
         "design: TLC exhaustive over Resolution (every data grid q subset of 1..QMax with <= MaxPts points, every "
         "per-point width vector over {0,1,2,4,8}, pinhole / slit length / width / both, default and user-supplied "
@@ -452,6 +535,8 @@ def run(chk, args):
     chk.assumptions += [
         "data grids are strictly increasing with spacing > 2e-7 (3*MINIMUM_RESOLUTION), so a zero-width pinhole "
         "window contains its own point only",
+        "a width is either zero or >= 1e-7 (10*MINIMUM_RESOLUTION): narrower widths are treated as zero by "
+        "linear_extrapolation by design; 2-D data points have |q| >= 1e-6 of the mesh size (DirectModel masks q < 1e-16)",
         "a user-supplied q_calc contains the data points (resolution.py: 'assumes that q is a subset of q_calc'), "
         "is positive for the slit classes, and has no two points closer than 2e-7",
         "coverage is required with one bin of slack and only for the default q_calc (DESIGN C03 soundness note)",
